@@ -379,3 +379,20 @@ def vegaflux_rule(chk, repo, clause):
             det = f'flux = {fmt(flux)}, wave = {fmt(wave)}'
     chk.ob(clause, 'N-formula', f.key, 'zero point: Jy*1e-26*c/lambda^2 [W/m^2/m] / (h*c/lambda) photons, per requested wavelength unit',
            ok, det, f.loc())
+    # other flux units: the photon -> energy conversion needs the wavelength in metres (h*c/lambda)
+    for vu, factor in (('wlam', Poly.const(1)), ('flam', Poly.const(Fraction('1e7')) * Poly.const(Fraction('1e-4')))):
+        f, paths, _ = analyse(repo, 'radiometry.vegaflux', config={'valueunit': Const(vu), 'band': Const('V')},
+                              symbolic_globals=True, inline=['radiometry.Photlam.to'])
+        rets = returns(paths)
+        ok2, det2 = None, 'result not understood'
+        if len(rets) == 1 and isinstance(rets[0].ret, Tup) and len(rets[0].ret) == 2:
+            flux, wave = rets[0].ret.items
+            mt = [a for a in nf.value_atoms(flux) if is_app(a, 'call:radiometry.Meter.to')]
+            if len(mt) == 1 and isinstance(flux, Poly):
+                M = Poly.atom(mt[0])
+                w0, jy = Poly.const(Fraction('545e-9')), Poly.const(3636)
+                want = jy * Poly.const(Fraction('1e-26')) * S('radiometry.C') / w0 ** 2 * factor / M
+                ok2 = flux == want and wave == w0 * M
+                det2 = f'flux = {fmt(flux)}; expected {fmt(want)}'
+        chk.ob(clause, 'N-formula', f.key, f'zero point in {vu}: photons * h*c/lambda with lambda in metres, per requested wavelength unit',
+               ok2, det2, f.loc())
